@@ -172,4 +172,6 @@ def run(tier):
     chk.floor("C10 obligations", len(chk.obls), 90)
     from .. import lints
     lints.length_is_boolean(chk, ['src/rsa/'])
+    from .. import lints as _l
+    _l.limb_split_consistent(chk, ['src/rsa/'])
     return chk.finish()
